@@ -28,7 +28,7 @@ import numpy as np
 
 from engine import build, shim
 
-LEAF_CLASSES = ["Affine", "Loc", "Scale", "TriangularAffine", "Exp", "SoftPlus", "Tanh", "LeakyTanh", "Identity", "Flip",
+LEAF_CLASSES = ["Affine", "Loc", "Scale", "TriangularAffine", "TriangularAffineScaled", "Exp", "SoftPlus", "Tanh", "LeakyTanh", "Identity", "Flip",
                 "Permute", "RationalQuadraticSpline", "RationalQuadraticSplineOffCentre", "PlanarLeaky", "PlanarTanh", "AdditiveCondition", "Coupling",
                 "CouplingSpline", "MaskedAutoregressive", "MaskedAutoregressiveSpline", "MaskedAutoregressiveExp", "MaskedAutoregressiveWide",
                 "BlockAutoregressiveNetwork", "BlockAutoregressiveNetworkDeep",
@@ -70,6 +70,13 @@ def leaf(cls, shape, rs, regime, key):
         A = rs.normal(size=(d, d))
         A[np.arange(d), np.arange(d)] = rs.uniform(0.4, 2.0, size=d)
         return bj.TriangularAffine(jnp.asarray(rs.normal(size=d)), jnp.asarray(A), lower=(var % 2 == 0))
+    if cls == "TriangularAffineScaled":      # every entry representable, the PRODUCT of the diagonal is not (true log-det -+800)
+        d = shape[0]
+        mag = [1e-22, 1e22, 1e-22, 1e22][var % 4]
+        A = (np.eye(d) + 0.1 * np.tril(rs.normal(size=(d, d)), -1) + 0.1 * np.triu(rs.normal(size=(d, d)), 1)) * mag
+        A[np.arange(d), np.arange(d)] = rs.uniform(0.5, 2.0, size=d) * mag
+        # loc = 0: a location of order 1 added to A x of order 1e-22 would absorb x (ill-conditioning that cond(J) does not see)
+        return bj.TriangularAffine(jnp.zeros(d), jnp.asarray(A), lower=(var < 2))
     if cls in ("Exp", "SoftPlus", "Tanh", "Identity", "Flip"):
         return getattr(bj, cls)(shape)
     if cls == "LeakyTanh":
@@ -120,7 +127,7 @@ def leaf(cls, shape, rs, regime, key):
     raise ValueError(cls)
 
 
-DEFAULT_SHAPE = {"TriangularAffine": (3,), "PlanarLeaky": (3,), "PlanarTanh": (3,), "Coupling": (3,), "CouplingSpline": (3,),
+DEFAULT_SHAPE = {"TriangularAffine": (3,), "TriangularAffineScaled": (16,), "PlanarLeaky": (3,), "PlanarTanh": (3,), "Coupling": (3,), "CouplingSpline": (3,),
                  "MaskedAutoregressive": (3,), "MaskedAutoregressiveSpline": (3,), "BlockAutoregressiveNetwork": (2,),
                  "BlockAutoregressiveNetworkDeep": (2,), "MaskedAutoregressiveExp": (3,), "MaskedAutoregressiveWide": (12,),
                  "RationalQuadraticSpline": (), "RationalQuadraticSplineOffCentre": (), "Reshape": (2, 2), "VmapSpline": (3,)}
